@@ -1,9 +1,365 @@
 import Drive.Json
-/-! Line-protocol handlers: Recorder (stub until the model lands). -/
+import PlaybackModel.Recorder
+/-!
+Line-protocol handler for the recorder model: a *history* of runs (operations and replays) on one recorder.
+First-order scripts (what the harness generates) are embedded into `Prog` by `toProg`; values are canonical texts.
+-/
 open Lean
 namespace Drive.Recorder
-open Drive
+open Drive PlaybackModel.Recorder
 
-def handlers : List (String × Handler) := []
+/-! ### value texts -/
+def valText : Val → String
+  | .atom s => s
+  | .excForm t => "exc:" ++ t
+
+def outText : Out → String
+  | .ret v => valText v
+  | .exc t => "exc:" ++ t
+
+def tupleText (l : List String) : String := "(" ++ String.intercalate "," l ++ ")"
+def wrapText (t : String) : String := "{\"W\":" ++ t ++ "}"
+def unwrapText (t : String) : String := ((t.drop 5).dropEnd 1).toString
+
+/-! ### site tables -/
+inductive CaptureSel where
+  | all | none
+  | sel (l : List (Option Nat × String))
+
+inductive Resolver where
+  | none | fails
+  | arg (i : Nat)
+
+inductive Subst where
+  | none
+  | const (v : String)
+  | echo            -- callable returning the tuple of positional arguments
+  | raises (t : String)
+
+structure SiteSpec where
+  name : String
+  isOut : Bool
+  alias : String
+  capture : CaptureSel
+  resolver : Resolver
+  fallbacks : Option (List String)          -- `none`: the fallback function raises
+  handler : String                          -- "", "wrap", "fail"
+  runOriginal : Bool
+  substitute : Subst
+  failOnMissing : Bool
+  default : String
+  body : Json                               -- script
+
+def lookupKw (k : String) : List (String × Val) → Option Val
+  | [] => Option.none
+  | (k', v) :: r => if k' = k then some v else lookupKw k r
+
+def insertSorted (kv : String × Val) : List (String × Val) → List (String × Val)
+  | [] => [kv]
+  | x :: r => if kv.1 < x.1 then kv :: x :: r else x :: insertSorted kv r
+
+def sortKw (l : List (String × Val)) : List (String × Val) := l.foldl (fun acc kv => insertSorted kv acc) []
+
+/-- capture selection of `_input_interception_key` (positions index the arguments without `self`) -/
+def captured (c : CaptureSel) (a : Args) : Option (List Val × List (String × Val)) :=
+  match c with
+  | .all => some (a.pos, sortKw a.kw)
+  | .none => some ([], [])
+  | .sel l =>
+    let rec go : List (Option Nat × String) → List Val → List (String × Val) → Option (List Val × List (String × Val))
+      | [], ps, ks => some (ps.reverse, sortKw ks)
+      | (pos, name) :: rest, ps, ks =>
+        match lookupKw name a.kw with
+        | some v => go rest ps ((name, v) :: ks.filter (fun kv => kv.1 != name))
+        | Option.none =>
+          match pos with
+          | Option.none => go rest ps ks
+          | some i => match a.pos[i]? with
+            | some v => go rest (v :: ps) ks
+            | Option.none => Option.none          -- IndexError
+    go l [] []
+
+def siteKeys (sp : SiteSpec) (a : Args) : Option (Key × List Key) :=
+  let alias? : Option String := match sp.resolver with
+    | .none => some sp.alias
+    | .fails => Option.none
+    | .arg i => (a.pos[i]?).map (fun v => sp.alias ++ "{" ++ valText v ++ "}")
+  let tup := match sp.capture with
+    | .all => true
+    | _ => false
+  match alias?, captured sp.capture a, sp.fallbacks with
+  | some al, some (ps, ks), some fb => some (Key.input al tup ps ks, fb.map (fun f => Key.input f tup ps ks))
+  | _, _, _ => Option.none
+
+def inCfgOf (sp : SiteSpec) : InCfg :=
+  { name := sp.name
+    keys := siteKeys sp
+    prepare := if sp.handler == "wrap" then some (fun _ v => some (.atom (wrapText (valText v))))
+               else if sp.handler == "fail" then some (fun _ _ => Option.none) else Option.none
+    restore := if sp.handler == "wrap" then (fun _ v => .atom (unwrapText (valText v))) else (fun _ v => v)
+    runOriginal := sp.runOriginal
+    substitute := match sp.substitute with
+      | .none => Option.none
+      | .const v => some (fun _ => .ret (.atom v))
+      | .echo => some (fun a => .ret (.atom (tupleText (a.pos.map valText))))
+      | .raises t => some (fun _ => .exc t) }
+
+def outCfgOf (sp : SiteSpec) : OutCfg :=
+  { name := sp.name
+    alias := sp.alias
+    prepare := if sp.handler == "wrap" then some (fun a => some (.atom (wrapText (tupleText (a.pos.map valText)))))
+               else if sp.handler == "fail" then some (fun _ => Option.none) else Option.none
+    failOnMissing := sp.failOnMissing
+    default := .atom sp.default }
+
+instance : Inhabited Prog := ⟨.done (.out (.ret (.atom "")))⟩
+
+/-! ### scripts -/
+abbrev Env := List (String × Out)
+
+def envGet (env : Env) (x : String) : Out :=
+  match env with
+  | [] => .ret (.atom "\"<unbound>\"")
+  | (y, o) :: r => if x = y then o else envGet r x
+
+/-- expressions: {"c": text} | {"v": var} | {"t": [expr..]} -/
+partial def evalExpr (env : Env) (j : Json) : String :=
+  match optField j "c", optField j "v", optField j "t" with
+  | some (.str s), _, _ => s
+  | _, some (.str x), _ => outText (envGet env x)
+  | _, _, some (.arr a) => tupleText (a.toList.map (evalExpr env))
+  | _, _, _ => "<bad-expr>"
+
+def parseArgs (env : Env) (j : Json) : Args :=
+  let pos := match optField j "args" with
+    | some (.arr a) => a.toList.map (fun e => Val.atom (evalExpr env e))
+    | _ => []
+  let kw := match optField j "kw" with
+    | some (.arr a) => a.toList.filterMap (fun kv => match kv with
+        | .arr #[.str k, e] => some (k, Val.atom (evalExpr env e))
+        | _ => Option.none)
+    | _ => []
+  { pos := pos, kw := kw }
+
+def bindArgs (a : Args) : Env :=
+  (a.pos.zipIdx.map (fun (v, i) => ("a" ++ toString i, Out.ret v))) ++ a.kw.map (fun (k, v) => ("kw:" ++ k, Out.ret v))
+
+def isExc : Out → Bool
+  | .exc _ => true
+  | .ret _ => false
+
+/-- script (JSON array of statements) -> interaction tree.  Site bodies are scripts looked up by name; `fuel` bounds
+the nesting of bodies. -/
+partial def toProg (sites : List (String × SiteSpec)) (fuel : Nat) (env : Env) (stmts : List Json) : Prog :=
+  match stmts with
+  | [] => .done (.out (.ret (.atom "None")))
+  | st :: rest =>
+    match optField st "op" with
+    | some (.str "ret") => .done (.out (.ret (.atom (evalExpr env (fieldD st "e" Json.null)))))
+    | some (.str "raise") => .done (.out (.exc ((asStr (fieldD st "t" Json.null)).toOption.getD "Exception")))
+    | some (.str "interrupt") => .done (.interrupt ((asStr (fieldD st "t" Json.null)).toOption.getD "KeyboardInterrupt"))
+    | some (.str "reraise") =>
+      (match envGet env ((asStr (fieldD st "x" Json.null)).toOption.getD "") with
+       | .exc t => .done (.out (.exc t))
+       | .ret _ => toProg sites fuel env rest)
+    | some (.str "discard") => .discard (toProg sites fuel env rest)
+    | some (.str "force") => .force (toProg sites fuel env rest)
+    | some (.str "rec") =>
+      .recordData ((asStr (fieldD st "k" Json.null)).toOption.getD "") (.atom (evalExpr env (fieldD st "e" Json.null)))
+        (toProg sites fuel env rest)
+    | some (.str "play") =>
+      let x := (asStr (fieldD st "x" Json.null)).toOption.getD "_"
+      .playData ((asStr (fieldD st "k" Json.null)).toOption.getD "") (fun o => toProg sites fuel ((x, o) :: env) rest)
+    | some (.str "ifexc") =>
+      let x := (asStr (fieldD st "x" Json.null)).toOption.getD ""
+      let br := if isExc (envGet env x) then fieldD st "then" (Json.arr #[]) else fieldD st "else" (Json.arr #[])
+      toProg sites fuel env ((asArr br).toOption.getD [] ++ rest)
+    | some (.str "ifeq") =>
+      let x := (asStr (fieldD st "x" Json.null)).toOption.getD ""
+      let c := evalExpr env (fieldD st "e" Json.null)
+      let br := if outText (envGet env x) == c then fieldD st "then" (Json.arr #[]) else fieldD st "else" (Json.arr #[])
+      toProg sites fuel env ((asArr br).toOption.getD [] ++ rest)
+    | some (.str "call") =>
+      let sname := (asStr (fieldD st "s" Json.null)).toOption.getD ""
+      let x := (asStr (fieldD st "x" Json.null)).toOption.getD "_"
+      let args := parseArgs env st
+      match sites.lookup sname, fuel with
+      | some sp, f + 1 =>
+        let body := toProg sites f (bindArgs args) ((asArr sp.body).toOption.getD [])
+        let k := fun o => toProg sites fuel ((x, o) :: env) rest
+        if sp.isOut then .callOut (outCfgOf sp) args body k else .callIn (inCfgOf sp) args body k
+      | _, _ => .done (.out (.exc "BadScript"))
+    | _ => .done (.out (.exc "BadScript"))
+
+/-! ### decoding -/
+def parseCapture (j : Json) : Except String CaptureSel :=
+  match j with
+  | .str "all" => .ok .all
+  | .str "none" => .ok .none
+  | .arr a => do
+    let l ← mapM' (fun e => match e with
+      | .arr #[p, .str n] => (match p with
+          | .null => .ok (Option.none, n)
+          | _ => do .ok (some (← asNat p), n))
+      | _ => .error "bad capture entry") a.toList
+    .ok (.sel l)
+  | _ => .error "bad capture"
+
+def parseSite (name : String) (j : Json) : Except String SiteSpec := do
+  let kind ← strField j "kind"
+  let resolver ← match fieldD j "resolver" Json.null with
+    | .null => .ok Resolver.none
+    | .str "fails" => .ok Resolver.fails
+    | r => do .ok (Resolver.arg (← natField r "arg"))
+  let fallbacks ← match fieldD j "fallbacks" Json.null with
+    | .null => .ok (some [])
+    | .str "raises" => .ok Option.none
+    | f => do .ok (some (← mapM' asStr (← asArr f)))
+  let subst ← match fieldD j "substitute" Json.null with
+    | .null => .ok Subst.none
+    | .str "echo" => .ok Subst.echo
+    | sj => match optField sj "const", optField sj "raises" with
+      | some (.str c), _ => .ok (Subst.const c)
+      | _, some (.str t) => .ok (Subst.raises t)
+      | _, _ => .error "bad substitute"
+  .ok { name := name, isOut := kind == "out", alias := ← strField j "alias",
+        capture := ← parseCapture (fieldD j "capture" (.str "all")),
+        resolver := resolver, fallbacks := fallbacks,
+        handler := (asStr (fieldD j "handler" (.str ""))).toOption.getD "",
+        runOriginal := (asBool (fieldD j "runOriginal" (.bool false))).toOption.getD false,
+        substitute := subst,
+        failOnMissing := (asBool (fieldD j "failOnMissing" (.bool true))).toOption.getD true,
+        default := (asStr (fieldD j "default" (.str "None"))).toOption.getD "None",
+        body := fieldD j "body" (Json.arr #[]) }
+
+def parseQ (j : Json) : Except String Q := do
+  match ← asArr j with
+  | [a, b] => .ok ⟨← asInt a, ← asNat b⟩
+  | _ => .error "bad rational"
+
+def parseParams (j : Json) : Except String Params :=
+  match j with
+  | .null => .ok {}
+  | _ => do
+    .ok { rate := ← parseQ (← field j "rate"), ignoreForce := ← boolField j "ignore",
+          skipped := ← boolField j "skipped", copy := ← boolField j "copy" }
+
+/-! ### encoding -/
+def jVal (v : Val) : Json := Json.str (valText v)
+def jKw (l : List (String × Val)) : Json := jArr (l.map (fun (k, v) => jArr [Json.str k, jVal v]))
+
+def jEnd : End → Json
+  | .out (.ret v) => jArr [Json.str "ret", jVal v]
+  | .out (.exc t) => jArr [Json.str "exc", Json.str t]
+  | .interrupt k => jArr [Json.str "interrupt", Json.str k]
+
+def jRVal : RVal → Json
+  | .value v => jArr [Json.str "value", jVal v]
+  | .exception t => jArr [Json.str "exception", Json.str t]
+  | .sent a kw => jArr [Json.str "sent", jArr (a.map jVal), jKw kw]
+  | .prepared v => jArr [Json.str "prepared", jVal v]
+  | .raw v => jArr [Json.str "raw", jVal v]
+
+def outKeyText (a : String) (n : Nat) : String := "output: " ++ a ++ " #" ++ toString n
+
+/-- data as a canonical object: output / result / free keys by their text; input keys as the list of their values
+(key TEXT is C06's layer); the harness sorts both sides -/
+def jData (d : Data) : Json :=
+  -- the assoc list is latest-first with shadowing: keep the first occurrence of each key
+  let rec dedup (seen : List Key) : Data → Data
+    | [] => []
+    | (k, v) :: r => if seen.contains k then dedup seen r else (k, v) :: dedup (k :: seen) r
+  let dd := dedup [] d
+  let named := dd.filterMap (fun (k, v) => match k with
+    | .outArgs a n => some (jArr [Json.str (outKeyText a n ++ ".output"), jRVal v])
+    | .outRes a n => some (jArr [Json.str (outKeyText a n ++ ".result"), jRVal v])
+    | .free t => some (jArr [Json.str t, jRVal v])
+    | .input _ _ _ _ => Option.none)
+  let inputs := dd.filterMap (fun (k, v) => match k with
+    | .input _ _ _ _ => some (jRVal v)
+    | _ => Option.none)
+  jObj [("named", jArr named), ("inputs", jArr inputs)]
+
+def jOutputs (d : Data) : Json :=
+  jArr (d.filterMap (fun (k, v) => match k with
+    | .outArgs a n => some (jArr [Json.str (outKeyText a n ++ ".output"), jRVal v])
+    | _ => Option.none))
+
+def jEv : Ev → Json
+  | .create i => jArr [Json.str "create", jNat i]
+  | .save i => jArr [Json.str "save", jNat i]
+  | .abort i => jArr [Json.str "abort", jNat i]
+  | .get i => jArr [Json.str "get", jNat i]
+
+def jMeta (m : Meta) : Json :=
+  jObj [("cls", Json.str m.cls),
+        ("excFlag", match m.excFlag with | some b => Json.bool b | Option.none => Json.null),
+        ("duration", jInt m.duration), ("incomplete", Json.bool m.incomplete), ("user", jKw m.user)]
+
+def jJournal (j : List (String × Args)) : Json :=
+  jArr (j.map (fun (n, a) => jArr [Json.str n, jArr (a.pos.map jVal), jKw (sortKw a.kw)]))
+
+def jIdle (s : St) : Json :=
+  jObj [("recording", Json.bool (inRecordingMode s)), ("playback", Json.bool (inPlaybackMode s)),
+        ("forced", Json.bool s.forced), ("counter", jNat s.counter.length), ("inInt", Json.bool s.inInt),
+        ("active", Json.bool s.active.isSome), ("pbOutputs", jNat s.playbackOutputs.length)]
+
+/-- substring test used by the incomplete flag -/
+def containsOp (a : String) : Bool := (a.splitOn opAlias).length > 1
+
+def aliasOracle : AliasOracle := ⟨fun a => a == opAlias || containsOp a, by simp [opAlias]⟩
+
+/-- {"m":"rec.hist","sites":{name:site..},"runs":[run..]} -> one transcript per run -/
+def histH : Handler := fun j => do
+  let sitesJ ← field j "sites"
+  let sites ← match sitesJ with
+    | .obj kvs => mapM' (fun (kv : String × Json) => do .ok (kv.1, ← parseSite kv.1 kv.2)) kvs.toList
+    | _ => .error "sites must be an object"
+  let runs ← arrField j "runs"
+  let mut s : St := {}
+  let mut out : List Json := []
+  for r in runs do
+    let kind ← strField r "run"
+    let script ← arrField r "script"
+    let prog := toProg sites 6 [] script
+    let enabled ← boolField r "enabled"
+    let draws ← mapM' parseQ ((asArr (fieldD r "draws" (Json.arr #[]))).toOption.getD [])
+    let clock ← mapM' asNat ((asArr (fieldD r "clock" (Json.arr #[]))).toOption.getD [])
+    let s0 : St := { s with enabled := enabled, draws := draws, drawn := 0, clock := clock, log := [], journal := [] }
+    let extractor ← match fieldD r "extractor" Json.null with
+      | .null => .ok Option.none
+      | .str "fails" => .ok (some Extracted.fails)
+      | e => do
+        let kvs ← mapM' (fun kv => do match ← asArr kv with
+          | [k, v] => .ok ((← asStr k), Val.atom (← asStr v))
+          | _ => .error "bad extractor field") (← asArr e)
+        .ok (some (Extracted.ok kvs))
+    let cfg : OpCfg := { cls := ← strField r "cls", params := ← parseParams (fieldD r "params" Json.null),
+                         extractor := extractor, saveFails := (asBool (fieldD r "saveFails" (.bool false))).toOption.getD false }
+    let twin := runPlain [] prog
+    if kind == "op" then
+      let (s1, e) := runOperation aliasOracle cfg s0 prog
+      let saved := match s1.log.findSome? (fun ev => match ev with | .save i => some i | _ => Option.none) with
+        | some i => (match fetch s1.store i with
+            | some rec => if s1.store.length > s0.store.length then jObj [("data", jData rec.data), ("meta", jMeta rec.md)] else Json.null
+            | Option.none => Json.null)
+        | Option.none => Json.null
+      out := out ++ [jObj [("end", jEnd e), ("journal", jJournal s1.journal), ("log", jArr (s1.log.map jEv)),
+                           ("saved", saved), ("idle", jIdle s1), ("drawn", jNat s1.drawn),
+                           ("twinEnd", jEnd twin.2), ("twinJournal", jJournal twin.1)]]
+      s := s1
+    else
+      let id ← natField r "rec"
+      let (s1, res) := runPlay aliasOracle cfg s0 id prog
+      let resJ := match res with
+        | .played po ro => jArr [Json.str "played", jOutputs po, jOutputs ro]
+        | .raised t => jArr [Json.str "raised", Json.str t]
+        | .interrupted k => jArr [Json.str "interrupted", Json.str k]
+      out := out ++ [jObj [("result", resJ), ("journal", jJournal s1.journal), ("log", jArr (s1.log.map jEv)),
+                           ("idle", jIdle s1), ("stored", jNat s1.store.length)]]
+      s := s1
+  .ok (jArr out)
+
+def handlers : List (String × Handler) := [("rec.hist", histH)]
 
 end Drive.Recorder
